@@ -61,6 +61,10 @@ impl Command for T {
 }
 
 pub fn gen(r: &mut Rng) -> Value {
+    if r.chance(1, 40) {
+        // C13: a script that would loop for ever, the embedder raises the flag from a second thread at some instant
+        return json!({"spin": true, "delay_us": r.below(3000), "shape": r.below(3)});
+    }
     let n = 2 + r.below(7);
     let labels = [":a", ":b", ":c"];
     let mut lines = vec![];
@@ -91,7 +95,7 @@ pub fn gen(r: &mut Rng) -> Value {
         lines.push(json!({"label": label, "out": out, "kind": kind, "val": val, "target": target, "via_alias": r.chance(1, 5)}));
     }
     // (sometimes the embedder's flag is already up when the run starts)
-    json!({"lines": lines, "on_error": r.below(4), "fuel": 40, "prehalt": r.chance(1, 12)})
+    json!({"lines": lines, "on_error": r.below(4), "fuel": 40, "prehalt": r.chance(1, 12), "as_file": r.chance(1, 4)})
 }
 
 fn upd(vars: &mut BTreeMap<String, String>, out: &Option<String>, v: Option<String>) {
@@ -107,7 +111,41 @@ fn upd(vars: &mut BTreeMap<String, String>, out: &Option<String>, v: Option<Stri
     }
 }
 
+fn run_spin(input: &Value) -> Option<Value> {
+    let tr = Arc::new(Mutex::new(vec![]));
+    let mut context = Context::new();
+    context.commands.set(Box::new(T { trace: tr.clone(), name: "t".to_string(), aliases: vec![] })).ok()?;
+    let script = match input["shape"].as_u64().unwrap_or(0) {
+        0 => "t goton - 0",
+        1 => "x = t cont 1 -\n:again t gotol - :again",
+        _ => "t cont - -\nt cont - -\nt goton v 1",
+    };
+    let halt = Arc::new(AtomicBool::new(false));
+    let h2 = halt.clone();
+    let d = input["delay_us"].as_u64().unwrap_or(100);
+    let th = std::thread::spawn(move || {
+        std::thread::sleep(std::time::Duration::from_micros(d));
+        h2.store(true, Ordering::SeqCst);
+    });
+    let env = Env::new(None, None, Some(halt.clone()));
+    // (a run that never returns is isolated by the driver and reported as the counterexample)
+    let res = runner::run_script(script, context, Some(env));
+    let _ = th.join();
+    match res {
+        Ok(_) => {
+            if !halt.load(Ordering::SeqCst) {
+                return Some(json!({"script": script, "what": "the run lowered the embedder's halt flag"}));
+            }
+            None
+        }
+        Err(e) => Some(json!({"script": script, "what": "a halted run must return successfully", "error": e.to_string()})),
+    }
+}
+
 pub fn run(input: &Value) -> Option<Value> {
+    if input["spin"].as_bool().unwrap_or(false) {
+        return run_spin(input);
+    }
     let lines = input["lines"].as_array()?;
     let on_error = input["on_error"].as_u64()?; // 0 none, 1 plain, 2 registered
     let mut text = vec![];
@@ -147,6 +185,9 @@ pub fn run(input: &Value) -> Option<Value> {
     let mut trace: Vec<String> = vec![];
     let mut line = 0usize;
     let prehalt = input["prehalt"].as_bool().unwrap_or(false);
+    // the error protocol names the file a script was read from (nothing for a script given as text)
+    let file_path = std::env::temp_dir().join(format!("verif_c03_{}.ds", std::process::id()));
+    let src_txt = if input["as_file"].as_bool().unwrap_or(false) { file_path.to_string_lossy().to_string() } else { String::new() };
     let mut halted = prehalt;
     let mut outcome: Result<(), Option<usize>> = Ok(()); // Err(Some(source line)) = failure naming a line
     let mut steps = 0;
@@ -225,7 +266,7 @@ pub fn run(input: &Value) -> Option<Value> {
                 }
                 upd(&mut vars, &out, Some("false".to_string()));
                 if on_error > 0 {
-                    trace.push(format!("on_error@0({}|{}|)->None", val_arg, src_line));
+                    trace.push(format!("on_error@0({}|{}|{})->None", val_arg, src_line, src_txt));
                     // a handler that crashes or answers with exit (whatever the code) ends the run at the failing line
                     if val_arg == "CRASHME" || val_arg == "EXITME" || val_arg == "EXIT0" {
                         outcome = Err(Some(src_line));
@@ -253,7 +294,16 @@ pub fn run(input: &Value) -> Option<Value> {
     }
     let halt = Arc::new(AtomicBool::new(prehalt));
     let env = Env::new(None, None, Some(halt.clone()));
-    let res = runner::run_script(&script, context, Some(env));
+    let res = if input["as_file"].as_bool().unwrap_or(false) {
+        // the same script given as a file: same invocations, same outcome, same failing line
+        let p = file_path.clone();
+        std::fs::write(&p, &script).ok()?;
+        let r = runner::run_script_file(&p.to_string_lossy(), context, Some(env));
+        let _ = std::fs::remove_file(&p);
+        r
+    } else {
+        runner::run_script(&script, context, Some(env))
+    };
     // the flag belongs to the embedder (it may be shared with other runs): the run only reads it
     if halt.load(Ordering::SeqCst) != halted {
         return Some(json!({"script": script, "what": "the run changed the embedder's halt flag", "model": halted, "real": halt.load(Ordering::SeqCst)}));
